@@ -23,9 +23,9 @@ META = {
   "technique": "Coq inductive invariants over all interleavings of an atomic-section model + vm_compute refutation witnesses + two-family -race stress with history-based classification",
 }
 KNOWN = [
- {"property": "C08", "id": "F15", "status": "fixed", "commit": "4e9d455",
+ {"property": "C08", "id": "F15", "status": "fixed", "commit": "1d668f0",
   "what": "getCurrentPartition did not re-check the current partition after taking the write lock: two writers that both found it full (or missing) each opened a new partition, so distinct keys within Capacity() were evicted (capacity 2, two goroutines setting one new key each: one key missing; 16 goroutines x 4 distinct keys on capacity 64: as few as 22 keys survive)",
-  "line": "fixed: property=C08 4e9d455 distinct keys within Capacity() set by concurrent writers were missing after quiescence (two writers both opened a new partition)",
+  "line": "fixed: property=C08 1d668f0 distinct keys within Capacity() set by concurrent writers were missing after quiescence (two writers both opened a new partition)",
   "signature": "^A:A-(witness|16x4|within):lost:"},
  {"property": "C08", "id": "K1", "status": "known",
   "what": "data race: Clear and Resize replace f.partitions and f.valuePartitionIndex (Resize also f.maxPartitions, f.partitionCapacity) under currentPartitionMux, which Get/Contains/Set/Delete/Keys/Values/Len/Capacity never take; the race detector reports Clear|Resize against these readers (and against the readers' first use of the freshly allocated stack/index), and a Set that overlaps a Clear/Resize can write a key into a partition of the new stack using the old index, which later shows up as a duplicate key. Needs a re-design of the cache's locking (readers would have to take the lock or the fields be swapped atomically as one unit).",
